@@ -754,6 +754,34 @@ pub fn run_c20(run: &mut Run) {
         run.family(format!("knn box {} generic pool sizes 2..{}", bn, kmax), items.len() as u64);
         run.explore(&items, eval_c20_knn, |i| J::s(i.3.clone()));
     }
+    // medium particle sets (deviation bounded): Kronecker pools of 40 (thorough also 120) particles with <= 1 removed, and a
+    // dense cluster inside one grid cell with three far particles (k larger than the population of the first rings: the
+    // ring-by-ring expansion, the heap replacement and the pruning bounds are all exercised); every k < n, six cell widths
+    for (bn, width) in [("cube", v3(1., 1., 1.)), ("1x4x2", v3(1., 4., 2.)), ("long-x", v3(4., 1., 1.))] {
+        let anchor = v3(-1., 2., 0.5);
+        let bx = BoxSpec { name: "c20", anchor, width };
+        let mut items: Vec<(DVec3, DVec3, Vec<DVec3>, String)> = vec![];
+        for np in if thorough { vec![40usize, 120] } else { vec![40usize] } {
+            let pool = kronecker_points(np, &bx, 3);
+            items.push((anchor, width, pool.clone(), format!("knn|{}|K{}|all", bn, np)));
+            for r in 0..np {
+                if np > 40 && r % 7 != 0 {
+                    continue;
+                }
+                let pts: Vec<DVec3> = (0..np).filter(|&i| i != r).map(|i| pool[i]).collect();
+                items.push((anchor, width, pts, format!("knn|{}|K{}|-{}", bn, np, r)));
+            }
+        }
+        for (cn, corner) in [("lo", v3(0.02, 0.03, 0.01)), ("mid", v3(0.47, 0.52, 0.49)), ("hi", v3(0.93, 0.9, 0.95))] {
+            let mut pts: Vec<DVec3> = kronecker_points(24, &bx, 3).into_iter().map(|p| anchor + corner * width + (p - anchor) * 0.04).collect();
+            for f in [v3(0.9, 0.1, 0.5), v3(0.1, 0.85, 0.2), v3(0.5, 0.5, 0.97)] {
+                pts.push(anchor + f * width);
+            }
+            items.push((anchor, width, pts, format!("knn|{}|cluster24+3|{}", bn, cn)));
+        }
+        run.family(format!("knn box {}: Kronecker pools of 40{} with <= 1 removed, clusters of 24 inside one grid cell + 3 far particles; every k < n", bn, if thorough { " / 120" } else { "" }), items.len() as u64);
+        run.explore(&items, eval_c20_knn, |i| J::s(i.3.clone()));
+    }
     // fine position alphabet in a plane: particles close to cell faces, neighbours one and two cells away
     // (the ring termination and pruning bounds depend on the distance to the cell face per axis)
     let nf = if thorough { 14 } else { 10 };
